@@ -13,20 +13,21 @@ import (
 
 // FarViewStats is what ScriptFarViews observed.
 type FarViewStats struct {
-	Worlds                   int
-	Elections                int // the node became leader of a far-away view through a quorum of votes
-	LockChoices              int // ... and at least one counted vote carried a prepared proof
-	StraddlingLockChoices    int // ... with proofs on both sides of 2^31, 2^32 or 2^63
-	Adoptions                int // a valid NEW_VIEW of a far-away view was adopted
-	EarlierRotationAdoptions int // ... by a node that held the same member's proposal of one rotation (n views) earlier
-	PreparedAtFarView        int // the node then held a prepared certificate in that view
-	LockedVotesJudged        int // VIEW_CHANGEs it sent afterwards, judged for the lock they must carry
-	Timeouts                 int
-	TimeoutsAtTheLastView    int // election timeouts fired while the node was in view 2^64-1
-	StateSamples             int
-	ProofViewsSeen           map[string]int
-	Samples                  []string
-	HandlerStillRunningFor   string
+	Worlds                       int
+	Elections                    int // the node became leader of a far-away view through a quorum of votes
+	LockChoices                  int // ... and at least one counted vote carried a prepared proof
+	StraddlingLockChoices        int // ... with proofs on both sides of 2^31, 2^32 or 2^63
+	Adoptions                    int // a valid NEW_VIEW of a far-away view was adopted
+	VotesForTheNextRotationFirst int // votes for view T+n delivered to the future leader before the same members' votes for T
+	EarlierRotationAdoptions     int // ... by a node that held the same member's proposal of one rotation (n views) earlier
+	PreparedAtFarView            int // the node then held a prepared certificate in that view
+	LockedVotesJudged            int // VIEW_CHANGEs it sent afterwards, judged for the lock they must carry
+	Timeouts                     int
+	TimeoutsAtTheLastView        int // election timeouts fired while the node was in view 2^64-1
+	StateSamples                 int
+	ProofViewsSeen               map[string]int
+	Samples                      []string
+	HandlerStillRunningFor       string
 }
 
 var farBoundaries = []uint64{1 << 31, 1 << 32, 1 << 63}
@@ -251,7 +252,26 @@ func ScriptFarViews(seed int64, worlds int, limit time.Duration) ([]Violation, *
 		if elect {
 			nvBefore := w.Mon.Stats["C09 new views judged"]
 			lockBefore := w.Mon.Stats["C09 new views re-proposing a lock"]
+			if n64 := uint64(n); rng.Intn(2) == 0 && T <= ^uint64(0)-n64 {
+				// some members have already voted for the node's next turn one rotation later (view T+n, not a quorum): their votes
+				// for T arrive after those and must still be counted
+				var early []string
+				for _, id := range voters {
+					if !c.IsQuorum(append(append([]string{}, early...), id)) && len(early) < 2 {
+						early = append(early, id)
+					}
+				}
+				for _, id := range early {
+					if ok = deliver(id, ref.RawVoteMsg(adv.mkVote(id, inst, 1, T+n64, nil), nil)); !ok {
+						break
+					}
+					st.VotesForTheNextRotationFirst++
+				}
+			}
 			for k, vt := range votes {
+				if !ok {
+					break
+				}
 				var blk interfaces.Block
 				if lv := voteLock[voters[k]]; lv != nil {
 					blk = lv.blk
